@@ -74,6 +74,15 @@ var propertyConfigs = map[string]*propertyConfig{
 			"NOT decided: that the external product decrypts to m*g, every noise bound, the 32-bit fast path, RGSW encryption, blind rotation (accumulator loop, test polynomial, key generation), plaintext operands of AddLazy"),
 		Trusted:     stdTrusted,
 	},
+	"C04": {
+		ID: "C04", Packages: []string{"./..."}, Level: "proof",
+		Explain: "Per-call structure of key switching (one call, same ring degree).  rlwe.Evaluator.ApplyEvaluationKey, in place and out of place: the output is (c0 + gp0, gp1) where (gp0, gp1) is the gadget product of the input's SECOND component with the given key (NAMED uf_gp0 / uf_gp1: functions of the ring element and of the gadget ciphertext), and carries the input's flags and scale.  " +
+			"Relinearize (receiver of degree 1 or 2, or the input): (c0 + gp0, c1 + gp1) with the gadget product of the THIRD component and the relinearisation key of the key set (NAMED uf_rlk), degree 1.  " +
+			"Automorphism (coefficient domain): the automorphism (NAMED uf_autom) of both components of the key switch with the Galois key of the element (NAMED uf_gk); CheckAndGetGaloisKey hands out that key.",
+		Assumptions: append(append([]string{}, engineBAssumptions...), "the gadget product, the automorphism of a ring element and the key-set accessors are TRUSTED leaves that write their outputs only; what they compute is named, not interpreted (digit arithmetic: contracts of C02; automorphism tables: C01 / C11)",
+			"NOT decided: that the result decrypts to the transformed plaintext, every noise bound, switching between ring degrees, the NTT branch of Automorphism, the hoisted and lazy variants, extract / repack, compressed keys"),
+		Trusted:     stdTrusted,
+	},
 	"C14": {
 		ID: "C14", Packages: []string{"./..."}, Level: "proof",
 		Explain: "Abstract contracts on the collective public-key protocol: GenShare = e_i - s_i*crp with one fresh error draw, in NTT/Montgomery form on Q and P; AggregateShares = +; GenPublicKey = (aggregate, crp). " +
